@@ -20,7 +20,7 @@ RULE = ('scripted stream: scenarios with 2-4 resumed segments whose boundaries s
         'repeated or in the past; real stream: (stock case, split time around the disturbance, snapshot yes/no); '
         'distinct = distinct scenario / (case, cut); non-trivial = at least two segments that both accepted steps')
 ASSUMPTIONS = [
-    'state equality split-vs-single is tested within 1e-3 (Newton tolerance 1e-4 + discretisation), not proved',
+    'state equality split-vs-single is tested within max(1e-3, 2 x |run(h) - run(h/2)|) (Newton tolerance 1e-4 + discretisation estimated by step halving), not proved',
     'dill snapshot fidelity is tested (bit-identical continuation), not proved',
 ] + c06.ASSUMPTIONS[:2]
 
@@ -95,6 +95,8 @@ sink = io.StringIO()
 with contextlib.redirect_stdout(sink):
     if mode == 'single':
         a = mk(); a.TDS.config.tf = tf; ok = a.TDS.run()
+    elif mode == 'single_half':
+        a = mk(); a.TDS.config.tf = tf; a.TDS.config.tstep = a.TDS.config.tstep / 2; ok = a.TDS.run()
     elif mode == 'split':
         a = mk(); a.TDS.config.tf = cut; ok1 = a.TDS.run(); save_ss(path, a); a.TDS.config.tf = tf; ok = a.TDS.run()
     elif mode == 'load':
@@ -133,6 +135,7 @@ def real_runs(ctx, ncuts):
     jobs = []
     for case, tev, tf, cuts in plan:
         jobs.append(('single', case, 0.0, tf, '-'))
+        jobs.append(('single_half', case, 0.0, tf, '-'))
         for k, cut in enumerate(cuts):
             jobs.append(('split', case, cut, tf, os.path.join(tmp, '%s-%d.pkl' % (os.path.basename(case), k))))
     jobs.append(('reset', plan[0][0], 0.0, 0.0, '-'))
@@ -146,9 +149,16 @@ def real_runs(ctx, ncuts):
     lres = dict(zip(loads, lout))
     for case, tev, tf, cuts in plan:
         single = res[('single', case, 0.0, tf, '-')]
-        if 'error' in single or not single['ok']:
+        half = res[('single_half', case, 0.0, tf, '-')]
+        if 'error' in single or not single['ok'] or 'error' in half or not half['ok']:
             ctx.notes.append('real single run of %s did not succeed: %s' % (case, str(single)[:200]))
             continue
+        # "up to discretisation error": the difference between the uninterrupted run and the same run at half the
+        # step size estimates it; a split run (whose grid is shifted by the cut) may differ by that much
+        disc = float(max(np.max(np.abs(np.array(half['x']) - np.array(single['x']))),
+                         np.max(np.abs(np.array(half['y']) - np.array(single['y'])))))
+        ctx.cov.setdefault('discretisation_estimate', {})[case] = disc
+        bound = max(1e-3, 2.0 * disc)
         for k, cut in enumerate(cuts):
             job = [j for j in jobs if j[0] == 'split' and j[1] == case and j[2] == cut][0]
             sp, ld = res[job], lres[('load',) + job[1:]]
@@ -167,8 +177,9 @@ def real_runs(ctx, ncuts):
                      np.max(np.abs(np.array(sp['y']) - np.array(ld['y']))))
             ctx.cov.setdefault('real_split_vs_single_max_diff', 0.0)
             ctx.cov['real_split_vs_single_max_diff'] = max(ctx.cov['real_split_vs_single_max_diff'], float(d))
-            if d > 1e-3:
-                ctx.oracle_fail('split-state-differs', 'final state of the split run differs from the single run by %.3g' % d, cse)
+            if d > bound:
+                ctx.oracle_fail('split-state-differs', 'final state of the split run differs from the single run by %.3g '
+                                '(discretisation error estimated from a half-step run: %.3g)' % (d, disc), cse)
             if d2 > 1e-9:
                 ctx.oracle_fail('snapshot-state-differs', 'snapshot-restored continuation differs from the in-process one by %.3g' % d2, cse)
             if not sp['inc'] or not ld['inc']:
